@@ -6,6 +6,12 @@ func init() {
 	const v2r = "internal/api/v2/routes.go"
 	const v1r = "internal/api/v1/routes.go"
 	addMutants(
+		Mutant{Property: "C19", Name: "serve-flags-not-bound", File: "cmd/serve.go",
+			Old: "\tif err := viper.BindPFlags(cmd.Flags()); err != nil {\n\t\tpanic(err)\n\t}\n", New: "", Expect: "R19e:"},
+		Mutant{Property: "C19", Name: "serve-binds-the-wrong-flag-set", File: "cmd/serve.go",
+			Old: "\tif err := viper.BindPFlags(cmd.Flags()); err != nil {", New: "\tif err := viper.BindPFlags(cmd.PersistentFlags()); err != nil {", Expect: "R19e:"},
+		Mutant{Property: "C19", Name: "read-only-flag-bound-individually", File: "cmd/serve.go",
+			Old: "\tif err := viper.BindPFlags(cmd.Flags()); err != nil {", New: "\tif err := viper.BindPFlag(readOnlyFlag, cmd.Flags().Lookup(readOnlyFlag)); err != nil {", Expect: "none", Benign: true},
 		Mutant{Property: "C19", Name: "gate-lets-post-through-with-header", File: ro,
 			Old: "if r.Method != http.MethodGet && r.Method != http.MethodOptions && r.Method != http.MethodHead {", New: "if r.Method != http.MethodGet && r.Method != http.MethodOptions && r.Method != http.MethodHead && r.Header.Get(\"X-Maintenance\") == \"\" {", Expect: "R19a:ReadOnly:next-handler-only-for-safe-methods"},
 		Mutant{Property: "C19", Name: "gate-allows-delete", File: ro,
